@@ -72,11 +72,7 @@ Proof. destruct sh; reflexivity. Qed.
 
 Lemma oracle_sound_exh_lemma s : exh_one s (shape_code (quote_shape ws s)) = 0.
 Proof.
-  unfold exh_one. rewrite shape_code_bit2, shape_of_code_code. fold (quote ws s).
-  rewrite (quote_meets_spec_lemma ws ws ws_sub s).
-  rewrite shape_eqb_refl, predict_args_quote, predict_assign_quote, predict_decl_quote,
-    predict_argeq_quote.
-  cbn [agrees]. rewrite !strs_eqb_refl. reflexivity.
+  unfold exh_one. rewrite shape_code_bit2, shape_of_code_code, shape_eqb_refl. reflexivity.
 Qed.
 
 (* ===================================================================== *)
